@@ -249,7 +249,14 @@ func prop(t *rapid.T) {
 	if rapid.IntRange(0, 3).Draw(t, "lateRoute") == 0 && len(hist) > 2 {
 		k := rapid.IntRange(1, len(hist)-1).Draw(t, "lateAt")
 		lp := pool[rapid.IntRange(0, len(pool)-1).Draw(t, "latePath")].path
-		if model.Stable(lp, o.Strict) && !strings.ContainsAny(lp, "{}[]") {
+		if rapid.Bool().Draw(t, "lateDynamic") {
+			// ... or a dynamic pattern related to an existing route (it may out-rank the route that answered before)
+			base := p.tb.Routes[rapid.IntRange(0, len(p.tb.Routes)-1).Draw(t, "lateBase")].P
+			if base.Raw == "" {
+				lp = model.GenRelative(t, model.GenCfg{MaxSegs: 3, Strict: o.Strict}, base).String()
+				hist = append(append(append([]req{}, hist[:k]...), req{"+GET", lp}), hist[k:]...)
+			}
+		} else if model.Stable(lp, o.Strict) && !strings.ContainsAny(lp, "{}[]") {
 			hist = append(append(append([]req{}, hist[:k]...), req{"+GET", model.Normalize(lp, o.Strict)}), hist[k:]...)
 		}
 	}
